@@ -490,6 +490,12 @@ func (c *bridgeChecks) checkC02(r *Run, s *Step, o *Outcome) []Violation {
 				inner = r.W.KeyByName(t.Tx.A.Str("inner")).Bech()
 			}
 			votedFor := pre.ByBridger[inner]
+			// the registry record is the truth: the signer must be the bridger written in the record of
+			// the oracle the index maps it to (a stale index entry does not make a key a bridger)
+			if rec, ok := pre.Oracles[oracleOfSigner]; isBridger && (!ok || rec.BridgerAddress != signer) {
+				vs = append(vs, viol("vote-admission", "MsgClaim/retired-bridger", "%s: claim tx signed by %s accepted, but that key is not the registered bridger of any oracle (index -> %s, record bridger %q)", ch.Name, t.Tx.S, oracleOfSigner, rec.BridgerAddress))
+				continue
+			}
 			if !isBridger {
 				vs = append(vs, viol("vote-admission", "MsgClaim/foreign-wrap", "%s: claim tx signed by %s (not a registered bridger) accepted; vote recorded for oracle %s", ch.Name, t.Tx.S, votedFor))
 				continue
